@@ -290,7 +290,7 @@ def body(ctx):
         sess.core.yield_io = True
         sess.call('connect')
         d = sess.device
-        d._local_id_lock, d._io_manager._transport_lock, d._io_manager._store_lock = asyncio.Lock(), asyncio.Lock(), asyncio.Lock()
+        env.set_locks(d, asyncio.Lock)
         log, state = [], dict(cancelled_at=None)
         orig = sess.transport.bulk_write
 
